@@ -59,7 +59,7 @@ CHECKS.update({
     "C03": (
         "chk-parse", MC, TREE + " under four option records with a totality guard; exhaustive cover of the container-transition graph pumped to depth 5e4..2e6 in fixed-stack threads of child processes",
         "Totality: every node of the trees, every byte string of length <= 3 over all 256 values, the <=4-byte families and every corpus edit, under all four option records, runs inside catch_unwind with a 10 s watchdog and an input iterator that aborts after 1000 polls past the end. Stack: all 84 words of length <= 3 over the four container-entry forms are pumped to depth N (5e4 quick; 2e5 and 2e6 thorough), closed / unclosed / wrongly closed, with seven endings (closed; unclosed; wrong innermost closer; closed + trailing garbage; wrong outermost closer; deep first item / member followed by a bad sibling - the last four exercise the parser's error path after a deep value has been built), parsed through parse_slice_with and parse_str_with and traversed in a thread with a 64 KiB (256 KiB) stack inside child processes; a killed child is a violation.",
-        "Arbitrary bytes only up to length 3 (+ structured families); nesting cycles longer than 3 are outside. Dropping a deep value is recursive (outside the statement) so the pump leaks it.",
+        "Wide containers are pumped together with the depth: every word of length <= 2 with at least one wide form (w items before / around the nested value; w = 33, 257 quick, 5..1025 thorough) at depth 4e3..1e4, all seven endings. Arbitrary bytes only up to length 3 (+ structured families); nesting cycles longer than 3 are outside. Dropping a deep value is recursive (outside the statement) so the pump leaks it.",
         "4/C03",
     ),
     "C05": (
